@@ -4,15 +4,35 @@
 (*                                          the antenna-voltage and noise functions by calculate_snr                     *)
 (*   shower {alt, lenDec, ef1, ef3, snr1, snr3, snrN1, snrN4, perm}  one event of a batch evaluated with shower energy E *)
 (*           and 3E (fixed random numbers), SNR with N and 4N antennas, and the same event inside a permuted batch      *)
-EXTENDS TraceKit, Radio, Float64
+EXTENDS TraceKit, Radio, Optical
 
 AllFinite(s) == \A i \in 1..Len(s) : FIsFinite(s[i])
 AllZero(s) == \A i \in 1..Len(s) : FEq(s[i], FZero)
 (* 1e-9: the geomagnetic and Askaryan terms may cancel by a factor ~1e4, which amplifies rounding (5e-13 observed) *)
 Scaled(a, b, k, ulps) == Len(a) = Len(b) /\ \A i \in 1..Len(a) : FClose(b[i], FMul(FInt(k), a[i]), FDec("1e-9"), FDec("1e-300"))
 
+(* beyond C20's statement: the field is scaled linearly with the ratio of the shower-detector distances (reference orbit 525 km  *)
+(* vs the configured altitude), and the ionospheric dispersion factor applies exactly when the detector is above 90 km, the        *)
+(* ionosphere section is present with a non-negative TEC, and parameters exist for the band / TEC / TEC error                        *)
+DistanceScale(alt, Z, beta, R) == FAbs(FDiv(Dist(alt, RefOrbit, beta, R), Dist(alt, Z, beta, R)))
+IonBands == {<<30, 80>>, <<30, 300>>, <<300, 1000>>, <<200, 1200>>}
+IonTECs == {1, 5, 10, 50, 100, 150}
+IonApplies(e) == /\ FGt(e.Z, FInt(90)) /\ e.ionPresent /\ e.tecTimes10 >= 0
+                 /\ <<e.lo, e.hi>> \in IonBands /\ (\E t \in IonTECs : e.tecTimes10 = 10 * t) /\ e.tecErrTimes10 <= 100
+
 Check(e) ==
-    CASE e.kind = "band" ->
+    CASE e.kind = "alt" ->
+        Fails(<< <<"radio: field at detector altitude Z = field at the 525 km reference x distance ratio (linear)",
+                   Len(e.efZ) = Len(e.efRef) /\
+                   \A k \in 1..Len(e.efZ) : FClose(e.efZ[k], FMul(e.efRef[k], DistanceScale(e.alt, e.Z, e.beta, e.R)), FDec("1e-9"), FDec("1e-300"))>> >>)
+      [] e.kind = "ion" ->
+        Fails(<< <<"radio: without applicable ionosphere parameters the field is bit-identical to the ionosphere-free field",
+                   IonApplies(e) \/ e.on = e.off>>,
+                 <<"radio: applicable ionosphere parameters scale every bin by one positive factor (fixed TEC error draw)",
+                   ~IonApplies(e) \/ (\A k \in 1..Len(e.on) : FEq(e.off[k], FZero) \/
+                        (FGt(FDiv(e.on[k], e.off[k]), FZero) /\ FClose(FDiv(e.on[k], e.off[k]), e.ratio, FDec("1e-9"), FZero)))>>,
+                 <<"radio: applicable ionosphere parameters change the field", ~IonApplies(e) \/ ~e.anyNonZero \/ e.on # e.off>> >>)
+      [] e.kind = "band" ->
         Fails(<< <<"C20 number of field bins = number of 10 MHz centres inside the band", e.nfield = Cardinality(FieldBins(e.lo, e.hi))>>,
                  <<"C20 antenna-voltage bins = field bins (number and centre frequencies)", e.ant = SortedSeq(FieldBins(e.lo, e.hi))>>,
                  <<"C20 noise bins = field bins (number and centre frequencies)", e.noise = SortedSeq(FieldBins(e.lo, e.hi))>> >>)
